@@ -2,6 +2,7 @@
    A cursor of the Rust code is (src, index, line); here it is (skipn index src, line).
    Every reader returns what it read and the cursor after it. *)
 From Sakura.Model Require Import Base.
+From Sakura.Gen Require Import Consts.
 
 Record cursor := mkCur { rest : list ch; line : Z }.
 
@@ -21,10 +22,14 @@ Definition peek0 (s : list ch) : ch := match s with c :: _ => c | [] => 0 end.
 Definition is_numeric (s : list ch) : bool := match s with c :: _ => is_digit c | [] => false end.
 Definition eq_char (s : list ch) (c : ch) : bool := match s with d :: _ => d =? c | [] => false end.
 
-(* decimal digits: no = no*10 + (ch - '0') *)
+(* numerals saturate: every digit step is capped at NUMERAL_MAX (generated from source_cursor.rs), so that arithmetic on
+   what was read cannot overflow 64 bits *)
+Definition sat (v : Z) : Z := Z.min v NUMERAL_MAX.
+
+(* decimal digits: no = min(no*10 + (ch - '0'), NUMERAL_MAX) *)
 Fixpoint take_dec (acc : Z) (s : list ch) : Z * list ch :=
   match s with
-  | c :: r => if is_digit c then take_dec (acc * 10 + (c - 48)) r else (acc, s)
+  | c :: r => if is_digit c then take_dec (sat (acc * 10 + (c - 48))) r else (acc, s)
   | [] => (acc, [])
   end.
 
@@ -32,7 +37,7 @@ Fixpoint take_dec (acc : Z) (s : list ch) : Z * list ch :=
 Definition is_oct_digit (c : ch) : bool := (48 <=? c) && (c <=? 56).
 Fixpoint take_oct (acc : Z) (s : list ch) : Z * list ch :=
   match s with
-  | c :: r => if is_oct_digit c then take_oct (acc * 8 + (c - 48)) r else (acc, s)
+  | c :: r => if is_oct_digit c then take_oct (sat (acc * 8 + (c - 48))) r else (acc, s)
   | [] => (acc, [])
   end.
 
@@ -45,7 +50,7 @@ Definition hex_val (c : ch) : option Z :=
 Fixpoint take_hex (acc : Z) (s : list ch) : Z * list ch :=
   match s with
   | c :: r => match hex_val c with
-              | Some d => take_hex (acc * 16 + d) r
+              | Some d => take_hex (sat (acc * 16 + d)) r
               | None => (acc, s)
               end
   | [] => (acc, [])
